@@ -126,4 +126,16 @@ let do_astfile toks =
     with Bad_case | Failure _ -> "bad-case")
   | _ -> "bad-case"
 
-let () = register "ast" do_ast; register "astfile" do_astfile
+(* asthist <ops> <hex text> <forest>
+   The history leg.  In the model the syntax tree is a VALUE: Process, ToEntry, GetModule, MatchingExtensions,
+   the entry cache and the lookup helpers are functions that take the tree and return something else
+   (entries, statement lists, modules); none of them is a builder.  So whatever <ops> is, the tree that a
+   module set holds after the history is the tree `Ast.parse_all_e` returned -- the one C03_mirror speaks
+   about -- and the observation is the one of "ast".  The implementation side dumps its (mutable) tree
+   again after every step of the history; it has to print this very dump every time. *)
+let do_asthist toks =
+  match toks with
+  | _ops :: rest -> do_ast rest
+  | _ -> "bad-case"
+
+let () = register "ast" do_ast; register "astfile" do_astfile; register "asthist" do_asthist
